@@ -340,23 +340,23 @@ rule!(op_call -> (Span<'a>,Vec<Value>), {
 });
 
 rule!(op_8(i) -> Value, {
-    map(
-        nom_tuple((
+    |i| {
+        let (rest, (p1, expr)) = nom_tuple((
             op_value,
             many0(alt((
                 op_index,
                 op_access,
                 op_call
             )))
-        )) ,
-    |(p1, expr)| {
+        ))(i)?;
         // println!("p1={:?} expr={:?}", p1, expr);
-        expr.into_iter().fold(p1, |p1, val| {
+        let ret = expr.into_iter().try_fold(p1, |p1, val| {
             let (op, mut args) : (Span,Vec<Value>) = val;
             args.insert(0,p1);
-            parse_many(op, args)
-        })
-    })
+            check_depth(i, parse_many(op, args))
+        })?;
+        Ok((rest, ret))
+    }
 });
 
 // Nested expressions (brackets, template elements, if/let/?: operands, chains of unary operators)
@@ -392,6 +392,24 @@ impl Drop for NestingGuard {
     }
 }
 
+// A chain of operators is parsed in a loop but builds a tree as deep as the chain is long, and type
+// checking, evaluation and drop recurse over that tree: refuse it before it can overflow the stack.
+const MAX_DEPTH: usize = 256;
+fn check_depth<'a, E>(i: Span<'a>, v: Value) -> Result<Value, nom::Err<E>>
+where
+    E: ParseError<Span<'a>> + ContextError<Span<'a>>,
+{
+    if v.depth() > MAX_DEPTH {
+        Err(nom::Err::Failure(E::add_context(
+            i,
+            "expression nested too deep",
+            E::from_error_kind(i, nom::error::ErrorKind::TooLarge),
+        )))
+    } else {
+        Ok(v)
+    }
+}
+
 //unary opreator
 rule!(op_7(i) -> Value, {
     alt((
@@ -409,20 +427,20 @@ rule!(op_7(i) -> Value, {
 macro_rules! op_rule {
     ($name:ident, $next:ident, $tags:expr ) => {
         rule!($name(i) -> Value, {
-            map(
-                nom_tuple((
+            |i| {
+                let (rest, (p1, expr)) = nom_tuple((
                     $next,
                     many0(nom_tuple((
                         ws($tags),
                         $next
                     )))
-                )),
-                |(p1, expr)|
-                    expr.into_iter().fold(p1, |p1, val| {
-                        let (op, p2) = val;
-                        parse2(op, p1, p2).into()
-                    })
-            )
+                ))(i)?;
+                let ret = expr.into_iter().try_fold(p1, |p1, val| {
+                    let (op, p2) = val;
+                    check_depth(i, parse2(op, p1, p2))
+                })?;
+                Ok((rest, ret))
+            }
         });
     };
 }
